@@ -26,12 +26,19 @@ def run(c):
         "(answer per RCPT command independent of spelling, per-domain DATA failure, connection fault exactly under a RCPT that follows k accepted ones "
         "of the same connection and is followed by more: 421+close / close / reset / stall in virtual time, on fresh and pooled connections); "
         "recipients ASCII / IDN U-label / A-label / non-ASCII local part over 3 domains, and ONE mailbox spelled several ways (letter case, A-label vs U-label, "
-        "NFC vs NFD) as different recipients of one transaction, and the SAME address string added two or three times in one transaction (exact duplicates, "
-        "adjacent or apart, each occurrence with its own RCPT answer); ground truth = what the next hop holds in transactions it answered 250; "
+        "NFC vs NFD, domain in absolute form with the root dot - ASCII, upper case, U-label, A-label) as different recipients of one transaction, and the SAME address string added two or three times in one transaction (exact duplicates, "
+        "adjacent or apart, each occurrence with its own RCPT answer); message buffers that can be opened only k = 0..3 times in deliveries spanning several recipient domains "
+        "(one connection and one Open() each; which connections meet the failing Open is observed and passed to the model as an oracle), readers that fail mid-way for the one connection "
+        "that gets them, messages quarantined after the recipients were added; the buffer's error may only show up in the results of as many connections as Open()/Read failed for; "
+        "ground truth = what the next hop holds in transactions it answered 250; "
         "LMTP next hop through the real target.lmtp with per-recipient statuses (by position, respelled mailboxes, exact duplicates each with its own reply and followed by recipients whose reply differs, replies cut off, faults under RCPT); "
         "pipeline reverse translation with 1-to-N rewrites and rewrite results that are themselves client-supplied recipients (chains, swaps), "
         "rewrites whose result differs from the client-supplied address only in spelling (letter case, U-label/A-label domain, NFC/NFD — lower-casing / normalising modifiers, "
         "alone, inside 1-to-N expansions, next to other spellings of the same mailbox as further client recipients), the client sending one address two or three times; "
+        "NESTED pipelines (reroute {} = *MsgPipeline as target, deliver_to &pipeline = the msgpipeline module) sharing the outer pipeline's *MsgMetadata and started lazily by the first recipient "
+        "routed into them: all recipients or those of per-address destination blocks routed into the nest (others to a direct target), outer rewrites (1-to-N, chains through client-supplied addresses, "
+        "spelling-only) in every placement, inner rewrites (fresh address, 1-to-2, another spelling, the address of a client recipient that stays outside the nest), per-recipient failures from the target behind "
+        "the inner pipeline; metadata that already carries the OriginalRcpts table of a pipeline the message passed earlier (pipeline in front of a queue); "
         "status keys and values seen by a recording StatusCollector compared with the model; distinct = distinct histories",
         explanation="theorems over all histories/pools/recipient lists; model tied to smtpconn/remote/smtp_downstream by differential runs against scripted servers",
         search=search,
